@@ -62,7 +62,14 @@ class Clock:
         pass
 
 
+_CLOCK_INSTALLED = False
+
+
 def install_clock():
+    global _CLOCK_INSTALLED
+    if _CLOCK_INSTALLED:
+        return
+    _CLOCK_INSTALLED = True
     import datetime as real
 
     import liquid2.builtin.filters.misc as misc
@@ -86,6 +93,11 @@ def install_clock():
 
     ctx.datetime = FakeModule
     misc.datetime = FakeModule
+    # whatever else asks the datetime module for the present - dateutil's parser completes '10:30' or
+    # 'March 5' from today's date - is looking at the same clock (this process only renders templates)
+    if real.datetime.__name__ != "FakeDateTime":
+        real.datetime = FakeDateTime
+        real.date = FakeDate
 
 
 def make_env(which: int, partials: dict):
@@ -193,7 +205,7 @@ def replay(ops, pool, partials):
     cache: dict = {}
     for i, op in enumerate(ops):
         if op["op"] == "tick":
-            Clock.now += 1000
+            Clock.now += 90_000        # a tick is 25 hours: the day changes
             continue
         if op["op"] == "edit":
             version[1] = 3 - version[1]
@@ -208,11 +220,59 @@ def replay(ops, pool, partials):
             fresh = call(make_env(e, contents(version[e])), {}, op, pool, partials)
         if got != fresh:
             return {"at": i, "op": op, "history": got, "fresh": fresh}
+        # ... and what the same call gives in a process where nothing else ever ran
+        if op["op"] != "pair" and op["fault"] == 0 and PRISTINE:
+            want = PRISTINE.get((e, op["t"], op["d"], version[e], op["op"], (Clock.now - 1_000_000) // 90_000))
+            if want is not None and got != want:
+                return {"at": i, "op": op, "history": got, "fresh": want, "oracle": "pristine-process"}
     return None
 
 
+PRISTINE: dict = {}
+MAX_TICKS = 8
+
+
+def _pristine_entry(args):
+    """Runs in an interpreter of its own (spawned, one task per process): what each kind of call gives
+    for one (environment, template, data set, loader version), at every clock value a history can reach,
+    before anything else has happened in the process."""
+    e, t_id, d, version, pool, partials, only_tick = args
+    install_clock()
+    out = {}
+    for ticks in ([only_tick] if only_tick is not None else range(MAX_TICKS + 1)):
+        for kind in ("render", "render_async", "from_string", "get_template", "analyze"):
+            Clock.now = 1_000_000 + 90_000 * ticks
+            cont = {n: v[version - 1] for n, v in partials.items()}
+            cont.update({t["name"]: t["src"] for t in pool})
+            op = {"op": kind, "t": t_id, "d": d, "fk": "data", "fault": 0, "env": e}
+            out[(e, t_id, d, version, kind, ticks)] = call(make_env(e, cont), {}, op, pool, partials)
+            if not pool[t_id - 1]["clocked"]:
+                for k2 in range(1, MAX_TICKS + 1):
+                    out[(e, t_id, d, version, kind, k2)] = out[(e, t_id, d, version, kind, 0)]
+        if not pool[t_id - 1]["clocked"]:
+            break
+    return out
+
+
+def pristine_table(pool, partials) -> dict:
+    """The reference that shares no process with any history: state that outlives the objects of a render
+    (module-level memos, class attributes) cannot hide in it."""
+    import multiprocessing as mp
+    # (a template that shows the clock gets a process per clock value: a memo would carry one value into the next)
+    jobs = [(e, t_id, d, version, pool, partials, tick) for e in (1, 2) for t_id in range(1, len(pool) + 1) for d in (1, 2) for version in (1, 2)
+            if version == 1 or (e == 1 and pool[t_id - 1]["loads"])
+            for tick in (range(MAX_TICKS + 1) if pool[t_id - 1]["clocked"] else [None])]
+    table = {}
+    with mp.get_context("spawn").Pool(workers(), maxtasksperchild=1) as pl:
+        for part in pl.imap_unordered(_pristine_entry, jobs):
+            table.update(part)
+    return table
+
+
 def _chunk(args):
-    hists, pool, partials = args
+    hists, pool, partials = args[:3]
+    if len(args) > 3:
+        PRISTINE.update(args[3])
     out = []
     for ops in hists:
         try:
@@ -234,11 +294,12 @@ def check(tier: str) -> int:
     ALL = {"TSet": "{}", "DSet": "{}"}
     runs = [("exhaustive", dict(ALL, MaxOps="2", MaxFault="2" if thorough else "1", Kinds=seq, MaxSched="0"), None),
             # call - tick - call on the templates that show the clock; call - edit - call on those that load partials
-            ("clock", {"MaxOps": "3", "MaxFault": "0", "Kinds": '{"call", "tick"}', "MaxSched": "0", "TSet": "{6, 7}", "DSet": "{}" if thorough else "{1}"}, None),
-            ("loader", {"MaxOps": "3", "MaxFault": "1" if thorough else "0", "Kinds": '{"call", "edit"}', "MaxSched": "0", "TSet": "{4, 5, 9}", "DSet": "{1}"}, None),
+            ("clock", {"MaxOps": "3", "MaxFault": "0", "Kinds": '{"call", "tick"}', "MaxSched": "0", "TSet": "{6, 7, 14}", "DSet": "{}" if thorough else "{1}"}, None),
+            ("loader", {"MaxOps": "3", "MaxFault": "1" if thorough else "0", "Kinds": '{"call", "edit"}', "MaxSched": "0", "TSet": "{4, 5, 9, 12}", "DSet": "{1}"}, None),
             ("pairs", dict(ALL, MaxOps="1", MaxFault="0", Kinds='{"pair"}', MaxSched="6" if thorough else "5"), None),
             ("random", dict(ALL, MaxOps="8" if thorough else "6", MaxFault="3", Kinds='{"call", "tick", "edit", "pair"}', MaxSched="4"),
              f"num={6000 if thorough else 1500}")]
+    table = None
     for label, c, sim in runs:
         consts = dict(c, Dev="{}", Focus='"history"')
         r = tlc.run("LiquidHistory", tlc.cfg_text(constants=consts, invariants=["HistoryIndependent", "Export", "ExportPool"]),
@@ -257,7 +318,11 @@ def check(tier: str) -> int:
             hists = list({json.dumps(rec["ops"]): rec["ops"] for rec in r.out_lines()}.values())
         finally:
             r.cleanup()
-        jobs = [(c2, meta["pool"], {p["name"]: [p["src"], p["src2"]] for p in meta["partials"]}) for c2 in chunks(hists, workers() * 3)]
+        parts = {p["name"]: [p["src"], p["src2"]] for p in meta["partials"]}
+        if table is None:
+            table = pristine_table(meta["pool"], parts)
+            chk.cov["samples"].append({"pristine_reference_entries": len(table)})
+        jobs = [(c2, meta["pool"], parts, table) for c2 in chunks(hists, workers() * 3)]
         with ProcessPoolExecutor(workers()) as ex:
             for n, fails in ex.map(_chunk, jobs):
                 chk.validated(n)
@@ -267,6 +332,8 @@ def check(tier: str) -> int:
                     tname = meta["pool"][f["op"]["t"] - 1]["name"] if f["op"].get("t") else "?"
                     prior = sorted({o["op"] for o in ops[:max(f["at"], 0)]})
                     what = "schedule-dependent" if f["op"]["op"] == "pair" and not prior else "history-dependent"
+                    if f.get("oracle") == "pristine-process":
+                        what = "process-state-dependent"
                     chk.violation(f"{what}:{f['op']['op']}:{tname}:after:{','.join(prior)}", {"history": ops, "failure": f})
         if hists:
             chk.cov["samples"].append({"history": hists[0]})
